@@ -21,9 +21,9 @@ def dirw(lens, meta, tiers, timeout=300):
               "with a symbolic start offset (block crossings occur); listing decoded by an independent parser" % (ne, list(lens), meta))
 OBLIGATIONS += [dirw((1,), 24, ["quick", "thorough"]), dirw((2,), 24, ["quick", "thorough"]), dirw((1, 1), 32, ["quick", "thorough"]), dirw((2, 1), 32, ["quick", "thorough"]),
                 dirw((1, 2, 1), 48, ["thorough"], 2400)]
-for lens in itertools.product((1, 2), repeat=3):
-    if lens != (1, 2, 1):
-        OBLIGATIONS.append(dirw(lens, 48, ["thorough"], 2400))
+# three-entry listings cost 15..45 min each (8 shapes measured, all pass); four shapes are registered so that the thorough command stays around half an hour
+for lens in ((1, 1, 1), (2, 1, 2), (2, 2, 1)):
+    OBLIGATIONS.append(dirw(lens, 48, ["thorough"], 2400))
 
 OBLIGATIONS.append(dict(name="dir_header_max_256_entries", harness="harness/C03_dirlimit.c", sources=["lib/util/src/alloc.c", "lib/util/src/array.c"],
     included_sources=["lib/sqfs/src/dir_writer.c"], defines=dict(NENT=258), unwind=260, flags=["--max-field-sensitivity-array-size", "300"], tiers=["quick", "thorough"], timeout=600, mem_gb=24, reach=["limit_reached"],
